@@ -10,16 +10,25 @@ CONFIG = {
                   "established session survives every further history including watchdog expiries of stalled peers "
                   "(C15_established_stays); the code arms no timer/deadline on the accept path (regenerated fact), for which the "
                   "timed model is the untimed one; witness for a watchdog aimed at the connection accepted last. "
+                  "Failed Accept calls (SA.Model.AcceptFail): a loop that goes back to Accept whatever failed serves a waiting well-behaved "
+                  "peer after every history that contains failed Accept calls of any class, number and position "
+                  "(C15_served_despite_accept_failures); the code's two accept loops have that policy (regenerated fact: nothing in the "
+                  "handling of Accept's error leaves the loop or waits, C15_accept_errors_retried); witness for a loop that retries "
+                  "only accept deadlines (C15_witness_accept_failure_ends_loop). "
                   "Partial: real time enters only as deadlines and hold times in the correspondence.",
     "level_note": "Trusted: Lean kernel; SA.Model.Accept tied by the regenerated facts and by e2e `stall` runs: m raw peers stalled after "
                   "connect / inside the first request line / between the two requests / inside a TLS hello / after the upgrade on tcp, "
                   "tcp+tls, ws, udp/kcp endpoints, then a real client must echo within 3 s (retry 10 s); hold scenarios: the served client's session is "
                   "kept 12 s (thorough 25-65 s) next to the stalled peers, then its open and a new logical connection must echo "
-                  "(control run without stalled peers on failure).",
+                  "(control run without stalled peers on failure); `stall <kind> <point> <m> acc:<errors>`: the endpoint's real accept loop "
+                  "on its real listener, whose Accept results are scripted: when one more silent peer arrives Accept fails once per listed "
+                  "error (EMFILE, ENFILE, ENOBUFS, ENOMEM, ECONNABORTED, EPROTO, EHOSTUNREACH, ENETDOWN, EINTR, a deadline, a bare error) "
+                  "with the connection left pending, then a real client must echo (tcp, tcp+tls, StartTLS, unix, dns: SocketServer's loop; "
+                  "udp: PacketServer's). net/http's own accept loop (ws, wss) is not scripted.",
     "technique": "Lean 4 proof (scheduler model, all schedules) + regenerated facts + e2e correspondence with stalled raw peers",
     "components": [{"name": "stall", "timeout": {"quick": 300, "thorough": 1200}},
                    {"name": "dnsfront", "timeout": {"quick": 60, "thorough": 120}}],
-    "rule": "dnsfront: commands.ComposeRequest on messages with 0..4 questions of name lengths 0..5 (and long single names): faults exactly where the model says, never on a one-question message; stall: hold scenarios (stalled first / well-behaved first); endpoint kinds tcp, tcp+tls, ws, udp (thorough: + StartTLS, wss) x stall points x m in {1,2} (thorough: 5); "
+    "rule": "stall acc: every error kind alone (thorough) and in runs of up to 12 failures on both accept loops; dnsfront: commands.ComposeRequest on messages with 0..4 questions of name lengths 0..5 (and long single names): faults exactly where the model says, never on a one-question message; stall: hold scenarios (stalled first / well-behaved first); endpoint kinds tcp, tcp+tls, ws, udp (thorough: + StartTLS, wss) x stall points x m in {1,2} (thorough: 5); "
             "non-trivial = well-behaved client served; distinct = distinct op line",
     "trusted_base": COMMON_TB + ["net/http per-request goroutines, kcp-go listener, Go scheduler"],
     "assumptions": ["served = first echo within the deadline"],
